@@ -287,6 +287,20 @@ fn on_foyer_event(kind: &'static str, a: u64, b: u64) {
         "skip_young" => {
             hist::ev("skip_young", a, 0, 0);
             hist::probe("skip_young");
+            // a skipped hand-off has still gone through the write-queue view (keeper) before being skipped
+            ST.with(|s| {
+                let mut s = s.borrow_mut();
+                let hmode = s.hmode;
+                let now = hist::now();
+                let task = shuttle::current::get_current_task().map(usize::from).unwrap_or(usize::MAX);
+                let keys: Vec<u64> = s.model.keys().copied().filter(|k| hash_of(hmode, *k) == a).collect();
+                for k in keys {
+                    if let Some(v) = s.last_leave.remove(&(task, k)) {
+                        s.handoffs.push((k, v, u64::MAX, task as u64));
+                        s.handoff_at.push(now);
+                    }
+                }
+            });
         }
         "shed_reinsertion" => {
             hist::ev("shed_reinsertion", a, b, 0);
@@ -436,9 +450,11 @@ pub fn judge(case: &Case, k: u64, bytes: &[u8], via: &str) -> Res {
                 return Res::hit(k, ver, len as u32, 1);
             }
             // freshness is the subject of C01 / C09 / C17 only; other properties run their own oracles on the result
-            if !matches!(prop, "C01" | "C09" | "C17") {
+            if !matches!(prop, "C01" | "C09" | "C10" | "C17") {
                 return Res { tag: Res::HIT, key: k, ver, w: len as u32, aux: 2 };
             }
+            // the classification aids below parse the whole write log: only the first few reports of a run get them
+            let cheap = false; // classification aids are cached per write-log length
             if km.reported_wrong == Some(ver) {
                 hist::probe("repeat_of_reported_wrong_version");
                 return Res { tag: Res::BAD, key: k, ver, ..Default::default() };
@@ -503,11 +519,11 @@ pub fn judge(case: &Case, k: u64, bytes: &[u8], via: &str) -> Res {
                     }
                 });
                 shape.push(("current_version_handoff_in_flight", in_gap.unwrap_or(false).to_string()));
-                if restarts > 0 {
+                if restarts > 0 && !cheap {
                     shape.push(("sequence_regression_in_a_block", crate::hyboracle::block_has_sequence_regression(case).to_string()));
                 }
             }
-            if ver < km.floor {
+            if ver < km.floor && !cheap {
                 // was some entry of this key's hash written twice under the same sequence (i.e. re-inserted by a
                 // reclaim)? a re-insertion that races the removal re-indexes the removed entry
                 let h = hash_of(case.get("hmode") as u8, k);
@@ -521,10 +537,11 @@ pub fn judge(case: &Case, k: u64, bytes: &[u8], via: &str) -> Res {
                 };
                 shape.push(("entry_of_key_was_reinserted", reinserted.to_string()));
             }
-            if restarts > 0 && case.get("tomb") != 0 {
+            if restarts > 0 && case.get("tomb") != 0 && !cheap {
                 let h = hash_of(case.get("hmode") as u8, k);
                 let lost = crate::hyboracle::tombstones_lost().iter().any(|(th, _)| *th == h);
                 shape.push(("tombstone_of_key_lost_in_log", lost.to_string()));
+                shape.push(("flushers_gt_1", (case.get("flushers") > 1).to_string()));
             }
             hist::violation(
                 prop,
@@ -709,6 +726,9 @@ impl Hyb {
             Op::Get { k, hold } => match cache.get(k).await {
                 Ok(Some(e)) => {
                     let r = judge(&case, *k, e.value(), "get");
+                    if std::env::var("VERIF_DEBUG").is_ok() {
+                        eprintln!("[debug] get {k}: refs {} source {:?}", e.refs(), e.source());
+                    }
                     note_source(*k, e.source());
                     hist::ev("h_get", *k, r.ver as u64, src(e.source()) | (age_of(&e) << 8));
                     if age_of(&e) == 2 {
@@ -757,6 +777,9 @@ impl Hyb {
                 match fut.await {
                     Ok(e) => {
                         let r = judge(&case, *k, e.value(), "get_or_fetch");
+                        if std::env::var("VERIF_DEBUG").is_ok() {
+                            eprintln!("[debug] fetch {k}: refs {} source {:?}", e.refs(), e.source());
+                        }
                         let s = src(e.source());
                         hist::ev("h_fetch", *k, r.ver as u64, s | (age_of(&e) << 8));
                         if *hold {
@@ -808,8 +831,16 @@ impl Hyb {
                 if first_close {
                     for k in 0..keys {
                         if cache.memory().contains(&k) {
-                            let cur = ST.with(|s| s.borrow().model.get(&k).and_then(|m| m.cur)).unwrap_or(0);
-                            hist::ev("resident_at_close", k, cur as u64, 0);
+                            // the version memory actually holds, and how many references besides this probe are outstanding
+                            // (handles held by the client or by background tasks; under LRU such an entry is pinned)
+                            if let Some(e) = cache.memory().get(&k) {
+                                let extra = e.refs().saturating_sub(1);
+                                if let Tagged::Ok { key, ver, .. } = check_value(e.value()) {
+                                    if key == k {
+                                        hist::ev("resident_at_close", k, ver as u64, extra as u64);
+                                    }
+                                }
+                            }
                         }
                     }
                     ST.with(|s| {
@@ -875,6 +906,14 @@ impl Hyb {
                         } else {
                             self.ctl.holder.unhold()
                         }
+                    }
+                    // crash-restart: the process dies (no close, nothing flushed any more), then the store is reopened on
+                    // what the device holds
+                    30 => {
+                        drop(cache);
+                        hist::fault("crash_restart");
+                        self.shutdown(false).await;
+                        return Res::boolean(self.reopen().await);
                     }
                     // held fetch: disk loads are held while a get_or_fetch of key `arg` is in flight; the origin must
                     // not start before the disk lookup has resolved
